@@ -153,6 +153,7 @@ def axis_alphabet(g, box, offset, ft, level, wrap, ulps=(1,), eps_rel=(1e-3,)):
                   deposit sees them), each with neighbours +-n ulp and +-1e-3 cell; domain [0, box] (box included).
     level 'red' : 0, first edge (-1ulp, exact, +1ulp), 1.3, top edge, box-1ulp, box
     level 'mini': 0, first edge, 1.3, box
+    negative offset: red/mini also get the lower-face edge -1/2 - offset (and a point below it)
     wrap: adds out-of-domain values (up to one box outside), to be brought back by the in-place wrap.
     """
     h = F8(box) / g
@@ -164,7 +165,9 @@ def axis_alphabet(g, box, offset, ft, level, wrap, ulps=(1,), eps_rel=(1e-3,)):
 
     if level == 'full':
         cent = [k / 2 for k in range(2 * g + 1)]
-        cent += [c - offc for c in cent if offc != 0]
+        # the centres/edges as the deposit sees them; k from -2 so that with a NEGATIVE offset the edge (pos+offset)/h = -1/2
+        # and the centre -1 (just inside the lower face) are in the alphabet; out-of-domain values are dropped below
+        cent += [k / 2 - offc for k in range(-2, 2 * g + 3) if offc != 0]
         for c in cent:
             p = ft(F8(c) * h)
             vals.append(p)
@@ -183,6 +186,13 @@ def axis_alphabet(g, box, offset, ft, level, wrap, ulps=(1,), eps_rel=(1e-3,)):
         pe = ft(F8(e) * h)
         top = ft(F8(g - 0.5 - offc) * h)
         pb = ft(box)
+        if offc < 0:
+            # lower face with a negative offset: (pos+offset)/h = -1/2 (edge below cell 0), with neighbours, and a point
+            # strictly between the face and that edge (nearest cell is -1, i.e. the periodic image g-1)
+            low = ft(F8(max(-0.5 - offc, 0.0)) * h)
+            vals += [low, ft(F8(max(-0.625 - offc, 0.0)) * h)]
+            if level == 'red':
+                vals += list(_nbrs(low, 1, ft))
         if level == 'red':
             dn, up = _nbrs(pe, 1, ft)
             vals += [ft(0), dn, pe, up, ft(1.3 * h), top, np.nextafter(pb, ft(0)), pb]
